@@ -9,6 +9,9 @@ THEOREMS = [
     "GitAi.NotesTree.one_note_per_object",
     "GitAi.NotesTree.lookup_finds_all",
     "GitAi.NotesTree.specSet_lookup",
+    "GitAi.NotesTree.batch_last_entry_wins",
+    "GitAi.NotesTree.add_sets_note",
+    "GitAi.NotesTree.one_note_per_object_before_fix_partial",
     "GitAi.NotesTree.witness_O6_duplicate_before_fix",
     "GitAi.NotesTree.witness_O6_missed_lookup_before_fix",
     "GitAi.NotesTree.regression_O6_fixed",
@@ -104,6 +107,19 @@ class Ctx:
         self.write_lines(r, path, cur)
         r.human_checkpoint([path])
         self.op(f"human_edit {path!r} +{n}@{pos}")
+
+    def human_rewrite_ai_line(self, r, path):
+        """a person edits a line an AI session wrote (pending, not yet committed)"""
+        cur = self.read_lines(r, path) if r.exists(path) else []
+        idx = [i for i, l in enumerate(cur) if l.startswith("ai-")]
+        if not idx:
+            return False
+        i = self.rng.choice(idx)
+        cur[i] = "human rewrote: " + cur[i][3:]
+        self.write_lines(r, path, cur)
+        r.human_checkpoint([path])
+        self.op(f"human rewrites AI line {i + 1} of {path!r}")
+        return True
 
     def ai_edit(self, r, path, session, n=2, delete=0):
         cur = self.read_lines(r, path) if r.exists(path) else []
@@ -268,6 +284,8 @@ def sc_commit(cx):
             k = cx.rng.random()
             if k < 0.5:
                 cx.ai_edit(r, nm, cx.rng.choice(["s1", "s2"]), n=cx.rng.randint(1, 3), delete=cx.rng.randint(0, 1))
+                if cx.rng.random() < 0.5:
+                    cx.human_rewrite_ai_line(r, nm)
                 if cx.rng.random() < 0.6:
                     # a second and third separate run of AI lines in the same file (another session sometimes)
                     cx.ai_edit(r, nm, cx.rng.choice(["s1", "s2"]), n=cx.rng.randint(1, 2))
@@ -285,6 +303,7 @@ def sc_amend(cx):
         cx.ai_edit(r, nm, "s1")
     cx.commit(r, "c1")
     cx.ai_edit(r, names[2], "s2")
+    cx.human_rewrite_ai_line(r, names[2])
     cx.human_edit(r, names[0])
     r.git("add", "-A")
     cx.git(r, "commit", "-q", "--amend", "-m", "c1 amended")
